@@ -25,7 +25,9 @@ LineKinds == {"table_head", "column", "note_line", "note_head", "note_text", "in
 FaultKinds == <<"illegal_char_line", "stray_identifier_line", "stray_comma_line", "delete_close_brace", "duplicate_close_brace",
                 "delete_open_brace", "unterminated_string", "column_without_type", "unknown_setting", "unknown_index_type",
                 "bad_ref_operator", "bad_action", "bad_colour", "text_after_close_brace", "delete_open_bracket", "delete_close_bracket",
-                "duplicate_open_bracket", "duplicate_close_bracket">>
+                "duplicate_open_bracket", "duplicate_close_bracket",
+                "empty_settings", "trailing_comma_in_settings", "missing_comma_in_settings", "missing_value", "ref_without_column",
+                "keyword_typo">>
 
 \* site = [ctx, kind, feats] : the line the fault is applied to (insertions go BEFORE that line, in its block)
 Has(site, f) == \E i \in DOMAIN site.feats : site.feats[i] = f
@@ -51,6 +53,15 @@ ProvablyInvalid(fault, site) ==
     \* brackets never nest in DBML outside literals: one more of either kind, anywhere a bracket stands, is unreadable
     [] fault = "duplicate_open_bracket" -> Has(site, "brackets_outside_literals")
     [] fault = "duplicate_close_bracket" -> Has(site, "brackets_outside_literals")
+    \* a settings list holds at least one setting, settings are separated by exactly one comma, `key:` needs a value
+    [] fault = "empty_settings" -> Has(site, "settings")
+    [] fault = "trailing_comma_in_settings" -> Has(site, "settings")
+    [] fault = "missing_comma_in_settings" -> Has(site, "two_settings")
+    [] fault = "missing_value" -> Has(site, "keyed_setting")
+    \* both sides of a relationship name table AND column
+    [] fault = "ref_without_column" -> site.kind \in {"ref_short", "ref_body"}
+    \* the words that open an element are fixed
+    [] fault = "keyword_typo" -> site.kind \in {"table_head", "enum_head", "group_head", "project_head", "ref_head", "ref_short", "sticky_head", "indexes_head"}
     [] OTHER -> FALSE
 
 \* the only outcome a parse of a provably invalid text may have
